@@ -10,7 +10,7 @@ from ..core import shim as shim_mod
 PROPERTY = "C06"
 LEVEL = "fault_enumeration"
 RULE = ("each objective call is a free 4-way choice (return, TimeoutError, RuntimeError, a foreign exception: ValueError / FileNotFoundError / ZeroDivisionError / KeyError / OSError depending on the configuration); all patterns over serial batches "
-        "of 1 and 2 designs (94 leaves per design incl. exactly 4 and exactly 5 consecutive failures); for one design additionally "
+        "of 1 and 2 designs (also two designs at the same point; batches of 3 and 5 with <=3 / <=2 non-default answers) (94 leaves per design incl. exactly 4 and exactly 5 consecutive failures); for one design additionally "
         "re-sampling draws deviating to 0.0 / 1-2^-53 (<=1 deviation per execution; thorough <=2); boxes incl. negative, tiny, huge, with and without declared "
         "precision; 2 designs on 2 worker threads under the controlled scheduler: every failure pattern (free) x every schedule with <=1 (thorough 2) pre-emptions. Non-trivial = at least one injected failure; "
         "distinct = distinct fault/draw sequences per configuration.")
@@ -48,7 +48,7 @@ class Env:
             env = {"ctx": None, "calls": []}
 
             def before(problem, individual):
-                c = env["ctx"].choose("fault", 4, 0, "objective")
+                c = env["ctx"].choose("fault", 4, env.get("fault_price", 0), "objective")
                 exc = None
                 if c == 1:
                     exc = TimeoutError("injected")
@@ -75,7 +75,7 @@ def in_box(problem, vec):
     return True
 
 
-def body_factory(cfg, nbatch, extreme, seed):
+def body_factory(cfg, nbatch, extreme, seed, same_vector=False):
     def body(ctx):
         from artap.individual import Individual
         from .c_support import reset_ids
@@ -83,6 +83,7 @@ def body_factory(cfg, nbatch, extreme, seed):
         problem, alg = env["problem"], env["alg"]
         env["ctx"] = ctx
         env["calls"] = []
+        env["fault_price"] = 1 if nbatch >= 3 else 0
         problem.failed = []
         problem.h_log = []
         problem.individuals = []
@@ -92,7 +93,9 @@ def body_factory(cfg, nbatch, extreme, seed):
         bounds = CONFIGS[cfg][0]
         batch = []
         for k in range(nbatch):
-            if extreme:      # designs exactly on the bounds (where clipped children often sit): lower for the first, upper for the second
+            if same_vector:  # several designs of one batch at the same point (a repeated design that fails twice is logged twice)
+                batch.append(Individual([b[0] + (b[1] - b[0]) * 0.5 for b in bounds]))
+            elif extreme:      # designs exactly on the bounds (where clipped children often sit): lower for the first, upper for the second
                 batch.append(Individual([b[k % 2] for b in bounds]))
             else:
                 batch.append(Individual([b[0] + (b[1] - b[0]) * (0.25 + 0.5 * k / max(1, nbatch)) for b in bounds]))
@@ -195,14 +198,15 @@ def _shard(shard, col: Collector):
         explore(body, col, bound=shard[1], sub="parallel", on_exec=on_exec2, case_extra={"bound": shard[1]})
         col.sample({"kind": "parallel workers", "designs": 2, "workers": 2, "deviation_bound (faults + pre-emptions)": shard[1]}, 1)
         return
-    cfg, nbatch, extreme, bound, seed = shard
-    body = body_factory(cfg, nbatch, extreme, seed)
+    cfg, nbatch, extreme, bound, seed = shard[:5]
+    same_vector = len(shard) > 5 and shard[5]
+    body = body_factory(cfg, nbatch, extreme, seed, same_vector)
 
     def on_exec(ctx, out):
         if any(c != 0 for c in ctx.choices):
-            col.nontrivial((cfg, nbatch, extreme, tuple(ctx.choices)))
+            col.nontrivial((cfg, nbatch, extreme, same_vector, tuple(ctx.choices)))
     explore(body, col, bound=bound, sub="faults", on_exec=on_exec,
-            case_extra={"cfg": cfg, "nbatch": nbatch, "extreme": extreme, "seed": seed})
+            case_extra={"cfg": cfg, "nbatch": nbatch, "extreme": extreme, "seed": seed, "same_vector": same_vector})
     col.sample({"config": cfg, "batch": nbatch, "resample_extremes": extreme,
                 "example_pattern": ["TimeoutError", "RuntimeError", "RuntimeError", "TimeoutError", "ok"]}, 1)
 
@@ -212,7 +216,7 @@ def replay(sub, case):
         from . import c07
         ctx, out = run_once(c07.body_factory(2, False, False, "free", None), case["choices"])
         return out
-    body = body_factory(case["cfg"], case["nbatch"], case["extreme"], case["seed"])
+    body = body_factory(case["cfg"], case["nbatch"], case["extreme"], case["seed"], case.get("same_vector", False))
     ctx, out = run_once(body, case["choices"])
     return out
 
@@ -223,6 +227,9 @@ def run(tier, seed):
         shards.append((cfg, 1, False, None, seed))
         shards.append((cfg, 1, True, 2 if tier == "thorough" else 1, seed))
     shards.append(("unit", 2, False, None, seed))
+    shards.append(("far_prec", 2, False, None, seed, True))
+    shards.append(("unit", 5, False, 2, seed))            # a larger batch: every pattern with <= 2 non-default answers
+    shards.append(("unit", 3, False, 3, seed, True))
     shards.append(("neg_prec", 2, False, None, seed))
     shards.append(("parallel", 2 if tier == "thorough" else 1))
     if tier == "thorough":
